@@ -3,7 +3,7 @@
 Derive a second property's unit from an existing sidecar: same template, same extraction, same contracts, but only the clauses
 matching <keep-regex> count for <property>; every other clause is tagged #aux (a failure there is AUXILIARY-CHANGED for this
 property and a VIOLATION for the base property's own unit). Run again whenever the base sidecar changes."""
-import re, sys, os
+import re, sys, os, json
 base, out, prop, unit, keep = sys.argv[1:6]
 rest = sys.argv[6:]
 auxl, notcov = [], []
@@ -26,7 +26,7 @@ for line in src:
     elif re.match(r"aux_lemmas\s*=", line): continue
     if notcov and re.match(r"not_covered\s*=\s*\[", line):
         res.append("not_covered = [")
-        for t in notcov: res.append("  " + repr(t).replace("'", '"') + "," if '"' not in t else "  '" + t + "',")
+        for t in notcov: res.append("  " + json.dumps(t, ensure_ascii=False) + ",")
         in_notcov = not line.rstrip().endswith("]")
         if not in_notcov: res.append("]")
         continue
